@@ -26,8 +26,9 @@ contracts, the statement being "for every tomography, every data vector"):
   shard's estimator and by a fresh one, with the SAME dataset objects (one of
   them twice in one sequence), first call a single estimate, other sequence
   lengths, is_computation_time_required given; results of both are read in
-  interleaved order; the library's consistency routine runs on the twin with
-  a copy() of the true object;
+  interleaved order; the twin's circuit data come from a copy() of the true
+  object, the library's consistency routine runs with the SAME true object
+  and the twin;
 * sibling-other-parametrisation  a tomography with the other value of
   on_para_eq_constraint on the SAME tester objects is estimated by the same
   estimator between two uses of the first one; earlier results read again;
@@ -49,6 +50,7 @@ carries the step's name as key suffix (PhaseKeys).
 """
 import contextlib
 import math
+import os
 import pickle
 from collections import OrderedDict
 
@@ -528,6 +530,8 @@ def install(ctx):
         A, b, li = e["A"], e["b"], e["li"]
         kappa, smax = li["kappa"], li["smax"]
         v, f, ds = e["vs"][k], e["fs"][k], e["seq"][k]
+        if v.ndim != 1 or v.shape[0] != A.shape[1] or f.shape[0] != A.shape[0]:
+            return  # an estimate of the wrong size was reported where it was made (estimate-shape)
         want_t = e["qt"]._estimated_qoperation_type.__name__
         info0 = {"tomo": tag, "kappa": kappa, "data": J.cls_of(ds, e["qt"]), "position": "first" if k == 0 else "later"}
         if not ctx.truth("estimated_qoperation:type", gen.type_of(qop) == want_t, key=f"{RN}.{label}:wrong-type:{tag}",
@@ -928,198 +932,215 @@ def run_history(ctx, hs, J, ph, hrng, est, cc, c):
             return None
         return q2, st2, pv2, sch2
 
-    J.lite = True
-    try:
-        # ------------------------------------------------------------------ twin tomography
-        with ph.step("twin-tomography"):
+    with hs.paused():
+        sch1 = [list(map(tuple, s)) for s in qt.experiment.schedules]
+
+    # ---------------------------------------------------------------------- twin tomography
+    def step_twin_tomography():
+        sched_arg = "all"
+        if hrng.random() < 0.6:
+            sched_arg = [list(sch1[k]) for k in hrng.permutation(len(sch1))]
+            ctx.count("hist:twin-tomography:explicit-permuted-schedules")
+        opts2 = draw_opts(hrng, 0.5) if hrng.random() < 0.5 else {}
+        if opts2:
+            ctx.count("hist:twin-tomography:non-default-ctor-options")
+        tw = make_twin(twin_testers(ref.rand_unitary(d, hrng), True), sched_arg, opts2)
+        if tw is not None:
+            ctx.count("hist:twin-tomography")
+            qt2, st2, pv2, sch2 = tw
+            true2 = true_obj.copy()
+            ps2 = born_exact(tomo, sch2, st2, pv2, ops)
+            exb2 = label([(int(hrng.integers(1, 10**5)), q) for q in ps2], "exact-born:twin", truth, [qt2])
+            smp2 = label(sample_data(ps2, hrng), "sampled:twin")
+            exc2 = None
+            ok, pc2 = ctx.attempt(qt2.generate_prob_dists_sequence, true2)
+            if not ok:
+                ctx.violation(f"{tomo}.generate_prob_dists_sequence:" + ctx.exc_key(pc2), {"true_kind": c["true_kind"]})
+            else:
+                pc2 = [np.asarray(q, dtype=np.float64).ravel() for q in pc2]
+                if len(pc2) == len(ps2) and all(a.shape == b.shape for a, b in zip(pc2, ps2)):
+                    derr2 = float(np.linalg.norm(np.hstack(pc2) - np.hstack(ps2)))
+                    if derr2 <= 1e-9:  # circuit-vs-Born agreement itself is judged in the ordinary part (and by C08)
+                        exc2 = label([(int(hrng.integers(1, 10**5)), q) for q in pc2], "exact-circuit:twin",
+                                     dict(truth, data_err=derr2), [qt2])
+            smp, few = datasets[1], datasets[3]
+            est2 = LinearEstimator()
+            # first call on the twin: a single estimate; then the first tomography again with the twin's data as
+            # arbitrary data, one dataset object twice; then the twin with the first one's dataset objects
+            r_a = estimate(est, qt2, exb2, False, True)
+            if r_a is not None:
+                ask(ctx, r_a, tag, ACCESSORS[2:] + ACCESSORS[:2])
+            r_b = estimate(est, qt, [exb2, smp, datasets[0], smp], True)
+            r_c = estimate(est2, qt2, [smp, exc2 if exc2 is not None else exb2, smp2] + ([] if lite else [few]), True,
+                           is_computation_time_required=bool(hrng.random() < 0.5))
+            for r, order in ((r_b, ACCESSORS[::-1]), (r_c, ACCESSORS), (r_a, ACCESSORS), (r_b, ACCESSORS[1:2] + ACCESSORS[3:])):
+                if r is not None:
+                    ask(ctx, r, tag, order)
+            if not lite:
+                r_d = estimate(est2, qt, datasets[2], False)
+                if r_d is not None:
+                    ask(ctx, r_d, tag, ACCESSORS[2:] + ACCESSORS[:2])
+            # the library's consistency routine: the SAME true object, now with the twin
+            ok, val = ctx.attempt(cc.calc_mse_of_true_estimated, true_obj, qt2, est)
+            if not ok:
+                ctx.violation("consistency_check.calc_mse_of_true_estimated:" + ctx.exc_key(val), {"tomo": tag})
+
+    # ------------------------------------------------------------------ other parametrisation, same tester objects
+    def step_sibling_other_parametrisation():
+        ok, sib = ctx.attempt(build_qt, tomo, c["states"], c["povms"], c["m_true"], not flag)
+        if not ok:
+            ctx.violation(f"{tomo}.ctor:" + ctx.exc_key(sib), {"testers": "re-used objects", "flag": not flag})
+        else:
             with hs.paused():
-                sch1 = [list(map(tuple, s)) for s in qt.experiment.schedules]
-            sched_arg = "all"
-            if hrng.random() < 0.6:
-                sched_arg = [list(sch1[k]) for k in hrng.permutation(len(sch1))]
-                ctx.count("hist:twin-tomography:explicit-permuted-schedules")
-            opts2 = draw_opts(hrng, 0.5) if hrng.random() < 0.5 else {}
-            if opts2:
-                ctx.count("hist:twin-tomography:non-default-ctor-options")
-            tw = make_twin(twin_testers(ref.rand_unitary(d, hrng), True), sched_arg, opts2)
-            if tw is not None:
-                ctx.count("hist:twin-tomography")
-                qt2, st2, pv2, sch2 = tw
-                true2 = true_obj.copy()
-                ps2 = born_exact(tomo, sch2, st2, pv2, ops)
-                exb2 = label([(int(hrng.integers(1, 10**5)), q) for q in ps2], "exact-born:twin", truth, [qt2])
-                smp2 = label(sample_data(ps2, hrng), "sampled:twin")
-                exc2 = None
-                ok, pc2 = ctx.attempt(qt2.generate_prob_dists_sequence, true2)
-                if not ok:
-                    ctx.violation(f"{tomo}.generate_prob_dists_sequence:" + ctx.exc_key(pc2), {"true_kind": c["true_kind"]})
-                else:
-                    pc2 = [np.asarray(q, dtype=np.float64).ravel() for q in pc2]
-                    if len(pc2) == len(ps2) and all(a.shape == b.shape for a, b in zip(pc2, ps2)):
-                        derr2 = float(np.linalg.norm(np.hstack(pc2) - np.hstack(ps2)))
-                        if derr2 <= 1e-9:  # circuit-vs-Born agreement itself is judged in the ordinary part (and by C08)
-                            exc2 = label([(int(hrng.integers(1, 10**5)), q) for q in pc2], "exact-circuit:twin",
-                                         dict(truth, data_err=derr2), [qt2])
-                smp, few = datasets[1], datasets[3]
-                est2 = LinearEstimator()
-                # first call on the twin: a single estimate; then the first tomography again with the twin's data as
-                # arbitrary data, one dataset object twice; then the twin with the first one's dataset objects
-                r_a = estimate(est, qt2, exb2, False, True)
-                if r_a is not None:
-                    ask(ctx, r_a, tag, ACCESSORS[2:] + ACCESSORS[:2])
-                r_b = estimate(est, qt, [exb2, smp, datasets[0], smp], True)
-                r_c = estimate(est2, qt2, [smp, exc2 if exc2 is not None else exb2, smp2] + ([] if lite else [few]), True,
-                               is_computation_time_required=bool(hrng.random() < 0.5))
-                for r, order in ((r_b, ACCESSORS[::-1]), (r_c, ACCESSORS), (r_a, ACCESSORS), (r_b, ACCESSORS[1:2] + ACCESSORS[3:])):
-                    if r is not None:
-                        ask(ctx, r, tag, order)
-                if not lite:
-                    r_d = estimate(est2, qt, datasets[2], False)
-                    if r_d is not None:
-                        ask(ctx, r_d, tag, ACCESSORS[2:] + ACCESSORS[:2])
-                # the library's consistency routine: the SAME true object, now with the twin
-                ok, val = ctx.attempt(cc.calc_mse_of_true_estimated, true_obj, qt2, est)
-                if not ok:
-                    ctx.violation("consistency_check.calc_mse_of_true_estimated:" + ctx.exc_key(val), {"tomo": tag})
-
-        # ------------------------------------------------------------------ other parametrisation, same tester objects
-        with ph.step("sibling-other-parametrisation"):
-            ok, sib = ctx.attempt(build_qt, tomo, c["states"], c["povms"], c["m_true"], not flag)
-            if not ok:
-                ctx.violation(f"{tomo}.ctor:" + ctx.exc_key(sib), {"testers": "re-used objects", "flag": not flag})
+                li_s = lin_info(sib.calc_matA())
+                sch_s = [list(map(tuple, s)) for s in sib.experiment.schedules]
+            if li_s["cls"] != "ic" or sch_s != sch1:
+                ctx.count("hist:sibling-not-IC:skipped")
             else:
-                with hs.paused():
-                    li_s = lin_info(sib.calc_matA())
-                    sch_s = [list(map(tuple, s)) for s in sib.experiment.schedules]
-                if li_s["cls"] != "ic" or sch_s != sch1:
-                    ctx.count("hist:sibling-not-IC:skipped")
-                else:
-                    ctx.count("hist:sibling-other-parametrisation")
-                    truth_s = dict(truth, var=ref_var(gen.type_of(true_obj), raw_list(true_obj), not flag))
-                    ex_s = label([(int(hrng.integers(1, 10**5)), q.copy()) for q in c["ps_born"]], "exact-born:sibling", truth_s, [sib])
-                    r_s = estimate(est, sib, ex_s, False)
-                    if r_s is not None:
-                        ask(ctx, r_s, tag, ACCESSORS[::-1])
-                    # the first tomography and its earlier results after the sibling's estimate
-                    ask(ctx, c["res"], tag, ACCESSORS[2:])
-                    r_f = estimate(est, qt, [datasets[5], datasets[0]], True)
-                    if r_f is not None:
-                        ask(ctx, r_f, tag)
-                    if r_s is not None and not lite:
-                        ask(ctx, r_s, tag, ACCESSORS[2:3])
+                ctx.count("hist:sibling-other-parametrisation")
+                truth_s = dict(truth, var=ref_var(gen.type_of(true_obj), raw_list(true_obj), not flag))
+                ex_s = label([(int(hrng.integers(1, 10**5)), q.copy()) for q in c["ps_born"]], "exact-born:sibling", truth_s, [sib])
+                r_s = estimate(est, sib, ex_s, False)
+                if r_s is not None:
+                    ask(ctx, r_s, tag, ACCESSORS[::-1])
+                # the first tomography and its earlier results after the sibling's estimate
+                ask(ctx, c["res"], tag, ACCESSORS[2:])
+                r_f = estimate(est, qt, [datasets[5], datasets[0]], True)
+                if r_f is not None:
+                    ask(ctx, r_f, tag)
+                if r_s is not None and not lite:
+                    ask(ctx, r_s, tag, ACCESSORS[2:3])
 
-        # ------------------------------------------------------------------ data lists made by the library
-        with ph.step("library-made-data"):
-            n_shots = int(round(10 ** hrng.uniform(1.0, 4.0)))
-            as_sequence = bool(hrng.random() < 0.5) and not lite
-            if not as_sequence:
-                ok, ed = ctx.attempt(qt.generate_empi_dists, true_obj, n_shots, int(hrng.integers(0, 2**31 - 1)))
-                if ok:
-                    ctx.count("hist:library-made-data:generate_empi_dists")
-                    label(ed, "library-sampled")
-                    r = estimate(est, qt, ed, False)
-                    if r is not None:
-                        ask(ctx, r, tag)
-                else:
-                    ctx.count("hist:library-made-data:generator-raised:" + type(ed).__name__)  # sampling is C14's business
-            else:
-                ns = sorted(int(round(10 ** hrng.uniform(0.5, 3.5))) for _ in range(3))
-                ok, eds = ctx.attempt(qt.generate_empi_dists_sequence, true_obj, ns, int(hrng.integers(0, 2**31 - 1)))
-                if ok:
-                    ctx.count("hist:library-made-data:generate_empi_dists_sequence")
-                    for x in eds:
-                        label(x, "library-sampled")
-                    r = estimate(est, qt, eds, True)
-                    if r is not None:
-                        ask(ctx, r, tag, ACCESSORS[::-1])
-                else:
-                    ctx.count("hist:library-made-data:generator-raised:" + type(eds).__name__)
-            # model distributions of an exact-data estimate, as returned (rows are views of one array)
-            ok = c["single0"] is not None  # the ordinary part's single estimate from the exact Born data
+    # ------------------------------------------------------------------ data lists made by the library
+    def step_library_made_data():
+        n_shots = int(round(10 ** hrng.uniform(1.0, 4.0)))
+        as_sequence = bool(hrng.random() < 0.5) and not lite
+        if not as_sequence:
+            ok, ed = ctx.attempt(qt.generate_empi_dists, true_obj, n_shots, int(hrng.integers(0, 2**31 - 1)))
             if ok:
-                with hs.paused():
-                    ok, q_est = ctx.attempt(getattr, c["single0"], "estimated_qoperation")
-            if ok:
-                ok, pm = ctx.attempt(qt.calc_prob_dists, q_est)
-                if ok:
-                    rows = [np.asarray(x, dtype=np.float64) for x in pm]
-                    if len(rows) == len(c["ps_born"]) and all(a.shape == b.shape for a, b in zip(rows, c["ps_born"])):
-                        derr = float(np.linalg.norm(np.hstack(rows) - np.hstack(c["ps_born"])))
-                        if derr <= 1e-9:  # (the estimate it comes from was judged where it was made)
-                            ctx.count("hist:library-made-data:calc_prob_dists-of-estimate")
-                            dm = label([(int(hrng.integers(1, 10**5)), x) for x in pm], "exact-model-of-estimate",
-                                       dict(truth, data_err=derr), [qt])
-                            r = estimate(est, qt, dm, False)
-                            if r is not None:
-                                ask(ctx, r, tag)
-
-        # ------------------------------------------------------------------ pickle round trips
-        with ph.step("via-pickle"):
-            ok, clone = ctx.attempt(lambda: pickle.loads(pickle.dumps((qt, est, c["res"]))))
-            if not ok:
-                ctx.violation("pickle-round-trip:" + ctx.exc_key(clone), {"tomo": tag})
-            else:
-                ctx.count("hist:via-pickle")
-                qt_p, est_p, res_p = clone
-                for k in (0, 2):
-                    J.share_truth(datasets[k], qt_p)
-                J.adopt(res_p, c["res"])
-                ask(ctx, res_p, tag, ACCESSORS[::-1])
-                r = estimate(est_p, qt_p, [datasets[0], datasets[1], datasets[2]], True)
+                ctx.count("hist:library-made-data:generate_empi_dists")
+                label(ed, "library-sampled")
+                r = estimate(est, qt, ed, False)
                 if r is not None:
                     ask(ctx, r, tag)
-                J.forget(qt_p)
-
-        # ------------------------------------------------------------------ tomographies created and dropped in turn
-        with ph.step("transient-tomography"):
-            n_made = 0
-            # all tester objects first: between dropping one tomography and building the next nothing else is created
-            pending = [twin_testers(ref.rand_unitary(d, hrng), False) for _ in range(2 if lite else 3)]
-            while pending:
-                tw = make_twin(pending.pop(), "all", {})
-                if tw is None:
-                    continue
-                q_t, st_t, pv_t, sch_t = tw
-                ps_t = born_exact(tomo, sch_t, st_t, pv_t, ops)
-                ds_t = label([(1 + n_made, q) for q in ps_t], "exact-born:transient", truth, [q_t])
-                r = estimate(est, q_t, ds_t, False)
+            else:
+                ctx.count("hist:library-made-data:generator-raised:" + type(ed).__name__)  # sampling is C14's business
+        else:
+            ns = sorted(int(round(10 ** hrng.uniform(0.5, 3.5))) for _ in range(3))
+            ok, eds = ctx.attempt(qt.generate_empi_dists_sequence, true_obj, ns, int(hrng.integers(0, 2**31 - 1)))
+            if ok:
+                ctx.count("hist:library-made-data:generate_empi_dists_sequence")
+                for x in eds:
+                    label(x, "library-sampled")
+                r = estimate(est, qt, eds, True)
                 if r is not None:
-                    ask(ctx, r, tag, ACCESSORS[2:3])
-                n_made += 1
-                J.forget(q_t)
-                del r, q_t, tw, ds_t  # nothing refers to this tomography any more: its address is free for the next one
-            if n_made >= 2:
-                ctx.count("hist:transient-tomography")
+                    ask(ctx, r, tag, ACCESSORS[::-1])
+            else:
+                ctx.count("hist:library-made-data:generator-raised:" + type(eds).__name__)
+        # model distributions of an exact-data estimate, as returned (rows are views of one array)
+        ok = c["single0"] is not None  # the ordinary part's single estimate from the exact Born data
+        if ok:
+            with hs.paused():
+                ok, q_est = ctx.attempt(getattr, c["single0"], "estimated_qoperation")
+        if ok:
+            ok, pm = ctx.attempt(qt.calc_prob_dists, q_est)
+            if ok:
+                rows = [np.asarray(x, dtype=np.float64) for x in pm]
+                if len(rows) == len(c["ps_born"]) and all(a.shape == b.shape for a, b in zip(rows, c["ps_born"])):
+                    derr = float(np.linalg.norm(np.hstack(rows) - np.hstack(c["ps_born"])))
+                    ctx.count("hist:library-made-data:calc_prob_dists-of-estimate")
+                    dm = [(int(hrng.integers(1, 10**5)), x) for x in pm]
+                    if derr <= 1e-9:  # exact up to derr (the estimate it comes from was judged where it was made)
+                        label(dm, "exact-model-of-estimate", dict(truth, data_err=derr), [qt])
+                    else:             # otherwise just one more data vector
+                        label(dm, "model-of-estimate")
+                    r = estimate(est, qt, dm, False)
+                    if r is not None:
+                        ask(ctx, r, tag)
 
-        # ------------------------------------------------------------------ everything again, at the end
-        with ph.step("second-call"):
-            ctx.count("hist:second-call")
-            ok, val = ctx.attempt(qt.reset_seed, int(hrng.integers(0, 2**31 - 1)))
-            if not ok:
-                ctx.violation(f"{tomo}.reset_seed:" + ctx.exc_key(val), {"tomo": tag})
-            # results of the ordinary part, read again after all the later estimates (other order, last one first)
-            for r in c["held"][::-1]:
-                ask(ctx, r, tag, ACCESSORS[3:] + ACCESSORS[:3])
+    # ------------------------------------------------------------------ pickle round trips
+    def step_via_pickle():
+        ok, clone = ctx.attempt(lambda: pickle.loads(pickle.dumps((qt, est, c["res"]))))
+        if not ok:
+            ctx.violation("pickle-round-trip:" + ctx.exc_key(clone), {"tomo": tag})
+        else:
+            ctx.count("hist:via-pickle")
+            qt_p, est_p, res_p = clone
+            for k in (0, 2):
+                J.share_truth(datasets[k], qt_p)
+            J.adopt(res_p, c["res"])
+            ask(ctx, res_p, tag, ACCESSORS[::-1])
+            r = estimate(est_p, qt_p, [datasets[0], datasets[1], datasets[2]], True)
+            if r is not None:
+                ask(ctx, r, tag)
+            J.forget(qt_p)
+
+    # ------------------------------------------------------------------ tomographies created and dropped in turn
+    def step_transient_tomography():
+        n_made = 0
+        # all tester objects first: between dropping one tomography and building the next nothing else is created
+        pending = [twin_testers(ref.rand_unitary(d, hrng), False) for _ in range(2 if lite else 3)]
+        while pending:
+            tw = make_twin(pending.pop(), "all", {})
+            if tw is None:
+                continue
+            q_t, st_t, pv_t, sch_t = tw
+            ps_t = born_exact(tomo, sch_t, st_t, pv_t, ops)
+            ds_t = label([(1 + n_made, q) for q in ps_t], "exact-born:transient", truth, [q_t])
+            r = estimate(est, q_t, ds_t, False)
+            if r is not None:
+                ask(ctx, r, tag, ACCESSORS[2:3])
+            n_made += 1
+            J.forget(q_t)
+            del r, q_t, tw, ds_t  # nothing refers to this tomography any more: its address is free for the next one
+        if n_made >= 2:
+            ctx.count("hist:transient-tomography")
+
+    # ------------------------------------------------------------------ everything again, at the end
+    def step_second_call():
+        ctx.count("hist:second-call")
+        ok, val = ctx.attempt(qt.reset_seed, int(hrng.integers(0, 2**31 - 1)))
+        if not ok:
+            ctx.violation(f"{tomo}.reset_seed:" + ctx.exc_key(val), {"tomo": tag})
+        # results of the ordinary part, read again after all the later estimates (other order, last one first)
+        for r in c["held"][::-1]:
+            ask(ctx, r, tag, ACCESSORS[3:] + ACCESSORS[:3])
+        e0 = J.registry.get(id(c["res"]))
+        if e0 is not None and e0["res"] is c["res"]:
+            first = e0["vs"]  # copies taken when the first call returned
+        else:
             with hs.paused():
                 first = [np.array(v, dtype=np.float64, copy=True) for v in c["res"].estimated_var_sequence]
-            # the first call again, on the same objects
-            r2 = estimate(est, qt, c["seq"], True)
-            if r2 is not None:
-                ask(ctx, r2, tag)
-                with hs.paused():
-                    again = [np.asarray(v, dtype=np.float64) for v in r2.estimated_var_sequence]
-                dd = max(rel_diff(x, y) for x, y in zip(again, first)) if len(again) == len(first) else float("inf")
-                J.num("repeated-call:same-estimates", dd, rp_tol[0], rp_tol[1],
-                      key=f"{PRE}:repeated-call-gives-other-estimates:{tag}", info={"tomo": tag, "kappa": li["kappa"]})
-            k = int(hrng.integers(0, len(c["seq"])))
-            r3 = estimate(est, qt, c["seq"][k], False)
-            if r3 is not None:
-                ask(ctx, r3, tag, ACCESSORS[::-1])
-                with hs.paused():
-                    v3 = np.asarray(r3.estimated_var, dtype=np.float64)
-                J.num("repeated-call:same-estimates", rel_diff(v3, first[k]), rp_tol[0], rp_tol[1],
-                      key=f"LinearEstimator.calc_estimate:repeated-call-gives-other-estimate-than-the-sequence:{tag}",
-                      info={"tomo": tag, "kappa": li["kappa"], "data": J.cls_of(c["seq"][k], qt)})
+        # the first call again, on the same objects
+        r2 = estimate(est, qt, c["seq"], True)
+        if r2 is not None:
+            ask(ctx, r2, tag)
+            with hs.paused():
+                again = [np.asarray(v, dtype=np.float64) for v in r2.estimated_var_sequence]
+            dd = max(rel_diff(x, y) for x, y in zip(again, first)) if len(again) == len(first) else float("inf")
+            J.num("repeated-call:same-estimates", dd, rp_tol[0], rp_tol[1],
+                  key=f"{PRE}:repeated-call-gives-other-estimates:{tag}", info={"tomo": tag, "kappa": li["kappa"]})
+        k = int(hrng.integers(0, len(c["seq"])))
+        r3 = estimate(est, qt, c["seq"][k], False)
+        if r3 is not None:
+            ask(ctx, r3, tag, ACCESSORS[::-1])
+            with hs.paused():
+                v3 = np.asarray(r3.estimated_var, dtype=np.float64)
+            J.num("repeated-call:same-estimates", rel_diff(v3, first[k]), rp_tol[0], rp_tol[1],
+                  key=f"LinearEstimator.calc_estimate:repeated-call-gives-other-estimate-than-the-sequence:{tag}",
+                  info={"tomo": tag, "kappa": li["kappa"], "data": J.cls_of(c["seq"][k], qt)})
+
+    steps = [("twin-tomography", step_twin_tomography), ("sibling-other-parametrisation", step_sibling_other_parametrisation),
+             ("library-made-data", step_library_made_data), ("via-pickle", step_via_pickle),
+             ("transient-tomography", step_transient_tomography), ("second-call", step_second_call)]
+    only = os.environ.get("QV_C09_ONLY_STEPS")  # diagnosis only (which step shows a fault on its own); the run is then inconclusive
+    J.lite = True
+    try:
+        for name, fn in steps:
+            if only and name not in only.split(","):
+                continue
+            with ph.step(name):
+                fn()
     finally:
         J.lite = False
 
